@@ -193,6 +193,12 @@ class Ctx:
                 # Violation it saw and let the 3x replay confirmation decide whether it is reported
                 v = _find_violation(e)
                 if v is None:
+                    if type(e).__name__ in ('FlakyStrategyDefinition', 'Flaky', 'FlakyFailure', 'FlakyReplay'):
+                        # an example behaved differently when Hypothesis re-ran it (a watchdog or the abort flag changed in between):
+                        # the chunk is dropped and counted, the search goes on
+                        self.rec.count('chunks_dropped_hypothesis_flaky')
+                        done += nex; ci += 1
+                        continue
                     raise
                 self.report(v, replay_fn)
                 if stop_on_violation:
